@@ -83,12 +83,49 @@ theorem rzleDec_spec {s : Imp} {e : HEdge} {sn : HNode} {self tg src : Nat} {s1 
         exact rzleDecide_spec hdec ht he hj
   · simp at hdec
 
+/-- the heap the contraction runs on (fix 6964517: possibly with the attributes of a merged terminal leaf
+    copied to the surviving node) differs from the decided heap in attribute fields of one node only -/
+structure PrepSpec (t t1 : HTree) : Prop where
+  edges : t1.edges = t.edges
+  graphV : t1.graphV = t.graphV
+  graphE : t1.graphE = t.graphE
+  tree : Tree t → Tree t1
+  back : ∀ n1 ∈ t1.nodes, ∃ n ∈ t.nodes, n.id = n1.id ∧ n.edges = n1.edges ∧ n.junction = n1.junction ∧
+    n.point = n1.point
+  fwd : ∀ n ∈ t.nodes, ∃ n1 ∈ t1.nodes, n1.id = n.id ∧ n1.edges = n.edges ∧ n1.junction = n.junction ∧
+    n1.point = n.point
+
+theorem PrepSpec.refl (t : HTree) : PrepSpec t t :=
+  ⟨rfl, rfl, rfl, id, fun n hn => ⟨n, hn, rfl, rfl, rfl, rfl⟩, fun n hn => ⟨n, hn, rfl, rfl, rfl, rfl⟩⟩
+
+theorem rzlePrep_spec (s1 : Imp) (e tg src : Nat) : PrepSpec s1.t (rzlePrep s1 e tg src) := by
+  unfold rzlePrep keepTerminalAttrs
+  split
+  · split
+    · split
+      · refine ⟨rfl, modNode_graphV _ _ _ (fun _ => rfl), rfl,
+          modNode_Tree _ _ _ (fun _ => rfl) (fun _ => rfl), ?_, ?_⟩
+        · intro n1 hn1
+          have hn1' : n1 ∈ s1.t.nodes.map _ := hn1
+          obtain ⟨n, hn, rfl⟩ := List.mem_map.mp hn1'
+          refine ⟨n, hn, ?_, ?_, ?_, ?_⟩ <;> split <;> rfl
+        · intro n hn
+          refine ⟨_, (List.mem_map.mpr ⟨n, hn, rfl⟩ : _ ∈ s1.t.nodes.map _), ?_, ?_, ?_, ?_⟩ <;> split <;> rfl
+      · exact PrepSpec.refl _
+    · exact PrepSpec.refl _
+  · exact PrepSpec.refl _
+
+theorem PrepSpec.joinsId {t t1 : HTree} (h : PrepSpec t t1) {i a b : Nat} (hj : JoinsId t i a b) :
+    JoinsId t1 i a b := by
+  obtain ⟨e, he, hid, hj⟩ := hj
+  exact ⟨e, by rw [h.edges]; exact he, hid, hj⟩
+
 /-- what one contraction performed by the traversal looks like: the edge `e`, listed at the live node
     `sn`, was chosen by `rzleDec`, and `contract` returned `t2` -/
 structure RzleStep (s : Imp) (s2 : Imp) : Prop where
   step : ∃ (e : HEdge) (sn : HNode) (tg src : Nat) (s1 : Imp) (t2 : HTree),
     e ∈ s.t.edges ∧ sn ∈ s.t.nodes ∧ e.id ∈ sn.edges ∧ rzleDec s e sn sn.id = some (tg, src, s1) ∧
-    contract s1.t e.id tg src = some t2 ∧ s2 = { s1 with t := t2 }
+    contract (rzlePrep s1 e.id tg src) e.id tg src = some t2 ∧ s2 = { s1 with t := t2 }
 
 /-- Induction principle for the traversal: a property of the improver state that every single
     contraction step preserves is preserved by `removeZeroLengthEdges`, for every fuel. -/
@@ -175,7 +212,8 @@ theorem rzle_inv_all (P : Imp → Prop) (hstep : ∀ s s2, P s → RzleStep s s2
 theorem rzleStep_tree {s s2 : Imp} (ht : Tree s.t) (h : RzleStep s s2) : Tree s2.t := by
   obtain ⟨e, sn, tg, src, s1, t2, he, hsn, hl, hdec, hc, rfl⟩ := h.step
   obtain ⟨ht1, hj1⟩ := rzleDec_spec hdec ht he hsn hl rfl
-  obtain ⟨t2', hc', ht2⟩ := contract_tree_id ht1 hj1
+  have hp := rzlePrep_spec s1 e.id tg src
+  obtain ⟨t2', hc', ht2⟩ := contract_tree_id (hp.tree ht1) (hp.joinsId hj1)
   rw [hc] at hc'
   cases hc'
   exact ht2
